@@ -177,7 +177,7 @@ static void explore_write(int doc, int flags, int to_file, int bound)
 		plant_message(0);
 		vf_io_choice = io_choice;
 		int rc, fd = -1;
-		errno = 0;
+		errno = mc_errno_pre;
 		if (to_file)
 			rc = json_object_to_file_ext("out.json", o, flags);
 		else
@@ -285,6 +285,7 @@ static void explore_read(int doc, int depth, int from_file, int bound)
 			fd = vf_fd_new_input(text, tl);
 		plant_message(0);
 		vf_io_choice = io_choice;
+		errno = mc_errno_pre;
 		o = from_file ? json_object_from_file("in.json") : depth >= 0 ? json_object_from_fd_ex(fd, depth) : json_object_from_fd(fd);
 		vf_io_choice = NULL;
 		int err = had_error();
